@@ -80,7 +80,21 @@ def rule2_strides(ctx, v):
             'parameters position-wise with func_stride 0 and funcs = &func')
     f = ctx.need_fn(v, 'myth_create_join_various_ex_aux')
     ic = [c for c in f.order if c.op == 'call' and 'callee_ref' in c.d]
-    ctx.ob('C17.2', 'leaf: one application of the item function', len(ic) == 1 and not f.in_loop(ic[0]), 'f is applied once per leaf', loc=f.loc)
+    # exactly one application on every path through the leaf: the call sites are loop-free, mutually exclusive and together
+    # unavoidable once the base case b - a == 1 has been taken
+    excl = all(not f.in_loop(c) for c in ic) and all(c2 not in f.reachable_from(c1) for c1 in ic for c2 in ic if c1 is not c2)
+    unavoidable = False
+    for bic in f.order:
+        if bic.op == 'icmp' and bic.pred in ('eq', 'ne'):
+            d = lib.affine_diff(f, bic.ops[0], bic.ops[1])
+            if len(lib.load_terms(f, d, ARG + 'b')) == 1 and len(lib.load_terms(f, d, ARG + 'a')) == 1 and len([k for k in d if k != '']) == 2:
+                for br in f.users(bic.id):
+                    if br.op == 'br' and 'cond' in br.d:
+                        leaf, other = (br.d['t'], br.d['f']) if bic.pred == 'eq' else (br.d['f'], br.d['t'])
+                        if ic and f.always_passes(br, ic, blocked_extra=[f.blocks[other].insts[0]]):
+                            unavoidable = True
+    ctx.ob('C17.2', 'leaf: one application of the item function', len(ic) >= 1 and excl and unavoidable, 'f is applied exactly once per leaf',
+           loc=f.loc, detail='%d call site(s), exclusive=%s, on every leaf path=%s' % (len(ic), excl, unavoidable))
 
     def strided(ref, arr, stride):
         a = affine(f, ref)
@@ -104,7 +118,18 @@ def rule2_strides(ctx, v):
         ok, d = strided(c.args[0], 'args', 'arg_stride') if c.args else (False, '')
         ctx.ob('C17.2', 'leaf: argument = args + a * arg_stride', ok, 'the argument is the item\'s strided address', loc=c.loc, detail=d)
         rs = [s for s in f.order if s.op == 'store' and same_value(f, s.ops[0], c.id)]
-        ctx.ob('C17.2', 'leaf: result stored once', len(rs) == 1, 'the return value goes to one slot', loc=c.loc)
+        dropped_ok = False
+        if not rs:
+            # the call sits on the NULL edge of a test of the results pointer (the loaded field or the slot address derived from it)
+            rl = set(l.id for l in f.loads_of(ARG + 'results'))
+            for t in f.order:
+                if t.op == 'icmp' and t.pred in ('eq', 'ne') and isinstance(t.ops[1], dict) and (t.ops[1].get('null') or t.ops[1].get('c') == 0):
+                    if rl & set(f.sources(t.ops[0], through_arith=True)):
+                        for br in f.users(t.id):
+                            if br.op == 'br' and 'cond' in br.d and f.edge_dominates(br.block.id, br.d['t'] if t.pred == 'eq' else br.d['f'], c):
+                                dropped_ok = True
+        ctx.ob('C17.2', 'leaf: result stored once', len(rs) == 1 or dropped_ok, 'the return value goes to one slot (or nowhere when no results '
+               'array was given)', loc=c.loc)
         for s in rs:
             src = [k for k in f.sources(s.ops[1]) if not k.startswith('{')]
             ok, d = strided(src[0], 'results', 'result_stride') if len(src) == 1 else (False, str(src))
@@ -209,8 +234,44 @@ def nn_conds(f, ref):
 
 
 def guarded_phi_nonnull(f, ptr, at):
-    """ptr is phi/select(NULL, x): the store at `at` is on the non-null edge of a test of that very pointer"""
-    return guarded_by_nonnull(f, ptr, at)
+    """ptr is phi/select(NULL, x) where x is produced only where the array base itself was tested non-NULL, and the store at
+    `at` is on the non-null edge of a test of that very pointer.  A test of base + offset alone is not a test of the base:
+    NULL + i*stride is not NULL."""
+    if not guarded_by_nonnull(f, ptr, at):
+        return False
+    pi = f.get(f.strip(ptr)) if isinstance(ptr, str) else None
+    while pi is not None and pi.op in ('bitcast',):
+        pi = f.get(f.strip(pi.ops[0])) if isinstance(pi.ops[0], str) else None
+    if pi is None:
+        return False
+    if pi.op == 'load':
+        return True                    # the tested pointer is the array base itself
+    if pi.op == 'phi':
+        inc = pi.d['incoming']
+        nulls = [(v, b) for v, b in inc if isinstance(v, dict) and (v.get('null') or v.get('c') == 0)]
+        others = [(v, b) for v, b in inc if (v, b) not in nulls]
+        if not nulls or not others:
+            return False
+        for v, b in others:
+            bases = [k for k in f.sources(v, through_arith=True) if k in f.insts and f.insts[k].op == 'load']
+            term = f.blocks[b].insts[-1]
+            if not bases or not any(guarded_by_nonnull(f, k, term) for k in bases):
+                return False
+        return True
+    if pi.op == 'select':
+        nul = [o for o in pi.ops[1:] if isinstance(o, dict) and (o.get('null') or o.get('c') == 0)]
+        if len(nul) != 1:
+            return False
+        oth = [o for o in pi.ops[1:] if o not in nul]
+        bases = set(k for o in oth for k in f.sources(o, through_arith=True) if k in f.insts and f.insts[k].op == 'load')
+        ci = f.get(f.strip(pi.ops[0])) if isinstance(pi.ops[0], str) else None
+        # the selecting condition is a NULL test of that base
+        return ci is not None and ci.op == 'icmp' and ci.pred in ('eq', 'ne') and isinstance(ci.ops[1], dict) and \
+            (ci.ops[1].get('null') or ci.ops[1].get('c') == 0) and bool(bases & set(f.sources(ci.ops[0])))
+    if pi.op == 'getelementptr':
+        # base + constant 0 only
+        return pi.d.get('coff') == 0
+    return False
 
 
 def is_local(f, ptr):
@@ -466,6 +527,9 @@ SCHED = 'src/myth_sched_func.h'
 PF = 'src/mtbb/parallel_for.h'
 TG = 'src/mtbb/task_group.h'
 MUTANTS = [
+    {'name': 'ids/results NULL test after adding the stride offset (seed2 C17/m1)', 'expect': 'C17.3',
+     'edits': [(SCHED, "    void * ids     = (meta_arg->ids   ? (char *)meta_arg->ids   + a * id_stride : 0);", "    void * ids     = (char *)meta_arg->ids     + a * id_stride;"),
+               (SCHED, "    void * results = (meta_arg->results ? (char *)meta_arg->results + a * result_stride : 0);  ", "    void * results = (char *)meta_arg->results + a * result_stride;")]},
     {'name': 'C entry drops the nthreads == 0 guard', 'expect': 'C17.1',
      'edits': [(SCHED, "  if (nthreads == 0) return 0;\n  myth_create_join_various_arg arg[1] = {", "  myth_create_join_various_arg arg[1] = {")]},
     {'name': 'mtbb empty-range guard removed (original defect D9)', 'expect': 'C17.5',
